@@ -543,6 +543,13 @@ def check(rep):
             rep.violation(f"flags not carried over to hyperscan for {fb}", {"kind": "conversion", "detail": "flags", "item": list(map(str, fb))})
     except symex.NotEncodable as ex:
         rep.inconc(f"pattern conversion: {ex}")
+    # (e) byte-level reading of the patterns: utf8(L_python(group 1)) inside L_bytes(group 1), per extractor
+    try:
+        from vf.harness import c14b
+
+        c14b.fold(rep)
+    except symex.NotEncodable as ex:
+        rep.inconc(f"byte-level inclusion: {ex}")
     rep.distinct = rep.evaluations
     # replay counter-models
     seen = set()
@@ -750,6 +757,10 @@ def replay_file(path):
         bad = replay_offsets(r["witness"])
     elif r["kind"] == "cache":
         bad = replay_cache(r["witness"])
+    elif r["kind"] in ("byte_level", "text"):
+        ref, hs = real_tokenizers(None)
+        a, b = token_sig(ref.extract_tokens(r["text"])), token_sig(hs.extract_tokens(r["text"]))
+        bad = [x for x in a if x not in b]
     else:
         bad = ["see the check output"]
     print(bad)
